@@ -66,24 +66,25 @@ func (s *MultipartRequest) UnmarshalBinary(data []byte) error {
 	var req util.Message
 	switch s.Type {
 	case MultipartType_Aggregate:
-		req = s.Body.(*AggregateStatsRequest)
-	case MultipartType_Desc:
-		break
+		req = NewAggregateStatsRequest()
 	case MultipartType_Flow:
-		req = s.Body.(*FlowStatsRequest)
+		req = NewFlowStatsRequest()
 	case MultipartType_Port:
-		req = s.Body.(*PortStatsRequest)
-	case MultipartType_Table:
-		break
+		req = NewPortStatsRequest()
 	case MultipartType_Queue:
-		req = s.Body.(*QueueStatsRequest)
-	case MultipartType_Experimenter:
-		break
-	}
-	if req == nil {
+		req = NewQueueStatsRequest()
+	case MultipartType_Desc, MultipartType_Table, MultipartType_PortDesc:
+		// requests with an empty body
+		s.Body = nil
+		return nil
+	default:
 		return fmt.Errorf("unsupported MultipartRequest type: %d", s.Type)
 	}
-	return err
+	if err = req.UnmarshalBinary(data[n:]); err != nil {
+		return err
+	}
+	s.Body = req
+	return nil
 }
 
 // ofp_multipart_reply 1.3
